@@ -201,6 +201,16 @@ CLAIMED = {
         design_ref="DESIGN.md section 5, C15",
         technique="Coq proof of the label/index bookkeeping and the guard; numerical round trip validated by write/read runs against the statement and an independent reader (partial)",
         note=NOTE_COMMON + " Partial: numbers and text layer are tested, not modelled. PyCifRW 5.0.1 and ASE are trusted glue."),
+    "C20": dict(
+        text="Small theorems on the plan model (all option records): the plan loads first and saves last, is ordered cell / positions / charges / "
+             "replicate / minimum-image replication / pair potentials / find-or-replace / framework element / save, contains for every given "
+             "option exactly the operation it names with the value given and nothing else, and with only a find pattern plans no replacement. The "
+             "substance is the tie: for every generated option combination the plan is computed by Coq, executed call by call through the Python API "
+             "with the same seeds, and the file written by the real entry point must be byte-identical (find-only: same matches). Known finding D11 "
+             "(--framework-element) is reported as KNOWN-FINDING.",
+        design_ref="DESIGN.md section 5, C20",
+        technique="Coq proof about the option-to-call plan; differential run of the real command line against the plan executed through the API",
+        note=NOTE_COMMON + " click's option parsing is trusted. Known finding D11 listed in known_findings.jsonl."),
 }
 
 PENDING_REASON = "no check registered yet: the Coq model and correspondence for this property are still being built (see DESIGN.md section 7 work order); nothing is claimed"
